@@ -1,3 +1,31 @@
-/- Model for C07: not written yet -/
+/-
+C07 — every generated configuration is loadable.
+Model pieces that are specific to C07 (the others are shared: server names = M-Dyn `HapVerif.C02`,
+auth-proxy ports = `HapVerif.C18`, references between hosts and backends = the sync model):
+`AddBackendPath` ids of pkg/haproxy/types/backend.go, and the verdict of the static "would HAProxy
+load this" pass that the harness runs on every configuration the real pipeline writes.  Core-only.
+-/
 namespace HapVerif.C07
+
+/-- the paths of one backend: link (host#path#type, abstract) and the numeric part of `pathNN` -/
+abbrev Paths := List (String × Nat)
+
+/-- `AddBackendPath`: find the link, else append with id `len+1` -/
+def addPath (ps : Paths) (link : String) : Paths :=
+  if ps.any (·.1 = link) then ps else ps ++ [(link, ps.length + 1)]
+
+def addAll (links : List String) : Paths := links.foldl addPath []
+
+/-- ids are exactly 1..n in insertion order -/
+def WellNumbered (ps : Paths) : Prop := ps.map (·.2) = (List.range ps.length).map (· + 1)
+
+/-- problem classes reported by the lint pass (harness/world/lint.go) -/
+def problemClass (p : String) : String := (p.splitOn ":").headD p
+
+/-- verdict on the implementation: the list of problems must be empty -/
+def oracle (problems : List String) : Option String :=
+  match problems with
+  | [] => none
+  | p :: _ => some (problemClass p)
+
 end HapVerif.C07
